@@ -5,9 +5,15 @@ use crate::assembly::{Instr, Line, Reg};
 use crate::vm::AbraInt;
 
 pub(crate) fn optimize(lines: Vec<Line>) -> Vec<Line> {
+    #[cfg(abra_verif)]
+    if crate::verif_asm::skip_optimize() {
+        return lines;
+    }
     let mut len = lines.len();
     let mut ret = lines;
     loop {
+        #[cfg(abra_verif)]
+        crate::verif_asm::record_lines(&ret);
         ret = optimization_pass(ret);
         if ret.len() < len {
             len = ret.len();
@@ -15,6 +21,8 @@ pub(crate) fn optimize(lines: Vec<Line>) -> Vec<Line> {
             break;
         }
     }
+    #[cfg(abra_verif)]
+    crate::verif_asm::record_lines(&ret);
     ret
 }
 
